@@ -347,11 +347,24 @@ class Const:
 CONST = Const()
 
 
+class Sentinel(str):
+  """A str subclass used as a named constant."""
+
+
+# constants registered *by value* that compare (and hash) equal to primitives
+HALF = __import__('fractions').Fraction(1, 2)
+ONE = __import__('decimal').Decimal(1)
+AUTO = Sentinel('auto')
+
+
 def _register_serialization():
   from fiddle.experimental import serialization  # pylint: disable=g-import-not-at-top
   serialization.register_dict_based_object(DictObj)
   serialization.register_constant('vfx.nodes', 'CONST',
                                   compare_by_identity=True)
+  for name in ('HALF', 'ONE', 'AUTO'):
+    serialization.register_constant('vfx.nodes', name,
+                                    compare_by_identity=False)
 
 
 _register_serialization()
